@@ -670,6 +670,64 @@ func heldLock(fi *FuncInfo, recv types.Object, mutex string, pos token.Pos) bool
 	return held
 }
 
+// heldLockOrByCallers: the lock is held at pos in fi, or fi is a method whose receiver is recv and every reference to that
+// method in the module is a direct call `x.m(...)` made while x.<mutex> is held (recursively, depth 3) - the
+// "must be called with the lock held" helper idiom.
+func heldLockOrByCallers(c *Ctx, fi *FuncInfo, recv types.Object, mutex string, pos token.Pos, depth int) bool {
+	if heldLock(fi, recv, mutex, pos) {
+		return true
+	}
+	if depth == 0 || fi.Obj == nil || fi.Sig == nil || fi.Sig.Recv() == nil || fi.Sig.Recv() != recv {
+		return false
+	}
+	refs := 0
+	for _, cf := range c.P.Funcs {
+		if cf.Body == nil || cf.Lit != nil {
+			continue // literals are visited as part of their declaration
+		}
+		info := cf.Pkg.TypesInfo
+		ok := true
+		pm := buildParents(cf.Body)
+		ast.Inspect(cf.Body, func(n ast.Node) bool {
+			sel, isSel := n.(*ast.SelectorExpr)
+			if !isSel {
+				return true
+			}
+			fn, _ := info.Uses[sel.Sel].(*types.Func)
+			if fn == nil || fn.Origin() != fi.Obj.Origin() {
+				return true
+			}
+			refs++
+			call, isCall := pm[sel].(*ast.CallExpr)
+			if !isCall || unparen(call.Fun) != ast.Expr(sel) {
+				ok = false // method value: may be called anywhere
+				return true
+			}
+			id, isID := unparen(sel.X).(*ast.Ident)
+			if !isID {
+				ok = false
+				return true
+			}
+			// the innermost function (declaration or literal) containing the call decides the lock region
+			holder := cf
+			for _, lf := range c.P.Funcs {
+				if lf.Lit != nil && lf.Root() == cf && lf.Lit.Pos() <= call.Pos() && call.End() <= lf.Lit.End() && (holder == cf || lf.Lit.Pos() >= holder.Pos()) {
+					holder = lf
+				}
+			}
+			o := info.Uses[id]
+			if o == nil || !heldLockOrByCallers(c, holder, o, mutex, call.Pos(), depth-1) {
+				ok = false
+			}
+			return true
+		})
+		if !ok {
+			return false
+		}
+	}
+	return refs > 0
+}
+
 func RunFrozen(c *Ctx) {
 	specs := map[string]*frozenSpec{}
 	for i := range frozenTypes {
@@ -738,7 +796,7 @@ func RunFrozen(c *Ctx) {
 			reason = "nil-guarded lazy initialiser, forced by every constructor (checked below)"
 		case fs.mutex != "":
 			if id, ok := base.(*ast.Ident); ok {
-				if o := info.Uses[id]; o != nil && heldLock(fi, o, fs.mutex, st.lhs.Pos()) {
+				if o := info.Uses[id]; o != nil && heldLockOrByCallers(c, fi, o, fs.mutex, st.lhs.Pos(), 3) {
 					reason = "under " + fs.mutex
 				}
 			}
@@ -815,7 +873,72 @@ func RunSliceAndClosureWrites(c *Ctx, pkgs []string, allowParam []allowSite) {
 					tainted[p] = p.Name()
 				}
 			}
+			if r := fi.Sig.Recv(); r != nil {
+				// a slice-typed value receiver shares its backing array with the caller's value just like a parameter
+				if _, ok := r.Type().Underlying().(*types.Slice); ok {
+					tainted[r] = r.Name()
+				}
+			}
 			if len(tainted) > 0 {
+				// in-place library mutators applied to the caller's array: slices.DeleteFunc(p, ...), sort.Strings(p), copy(p, ...), clear(p)
+				ast.Inspect(fi.Body, func(n ast.Node) bool {
+					if lit, ok := n.(*ast.FuncLit); ok && lit != fi.Lit {
+						return false
+					}
+					call, ok := n.(*ast.CallExpr)
+					if !ok || len(call.Args) == 0 {
+						return true
+					}
+					name := ""
+					switch f := unparen(call.Fun).(type) {
+					case *ast.Ident:
+						if _, isB := info.Uses[f].(*types.Builtin); isB && (f.Name == "copy" || f.Name == "clear") {
+							name = f.Name
+						}
+					case *ast.SelectorExpr:
+						if fn, ok := info.Uses[f.Sel].(*types.Func); ok && fn.Pkg() != nil && inPlaceMutators[fn.Pkg().Path()+"."+fn.Name()] {
+							name = fn.Pkg().Name() + "." + fn.Name()
+						}
+					case *ast.IndexExpr: // explicit instantiation slices.DeleteFunc[T]
+						if se, ok := unparen(f.X).(*ast.SelectorExpr); ok {
+							if fn, ok := info.Uses[se.Sel].(*types.Func); ok && fn.Pkg() != nil && inPlaceMutators[fn.Pkg().Path()+"."+fn.Name()] {
+								name = fn.Pkg().Name() + "." + fn.Name()
+							}
+						}
+					}
+					if name == "" {
+						return true
+					}
+					arg := unparen(call.Args[0])
+					if se, ok := arg.(*ast.SliceExpr); ok {
+						arg = unparen(se.X)
+					}
+					if cv, ok := arg.(*ast.CallExpr); ok && len(cv.Args) == 1 { // conversion []string(p), sort.StringSlice(p)
+						if tv, ok := info.Types[cv.Fun]; ok && tv.IsType() {
+							arg = unparen(cv.Args[0])
+						}
+					}
+					id, ok := arg.(*ast.Ident)
+					if !ok {
+						return true
+					}
+					org, ok := tainted[info.Uses[id]]
+					if !ok {
+						return true
+					}
+					key := fi.Root().Name + "|" + name + "(" + org + ")"
+					why, okAllowed := allow[key]
+					if okAllowed {
+						used[key] = true
+					}
+					c.R.Obl(Obligation{Rule: "E6.R-param-slice", Func: fi.Name, Construct: name + " on " + org, Pos: c.P.Position(call.Pos()), Discharged: okAllowed, Nontrivial: true, How: []string{why}, Ctl: fi.Ctl})
+					if okAllowed {
+						return true
+					}
+					c.R.Find(Finding{Rule: "E6.R-param-slice", Func: fi.Name, Construct: "in-place " + name + " on caller's slice " + org, Pos: c.P.Position(call.Pos()),
+						Msg: fmt.Sprintf("`%s` rewrites the elements of %s in place: the backing array belongs to the caller (a parameter or a slice-typed receiver is only a copy of the slice header), so the caller's - possibly shared or stored - value is modified", types.ExprString(call), org), Ctl: fi.Ctl})
+					return true
+				})
 				// aliases: x := p / x := p[a:b]
 				for iter := 0; iter < 3; iter++ {
 					ast.Inspect(fi.Body, func(n ast.Node) bool {
@@ -1010,6 +1133,13 @@ func RunSliceAndClosureWrites(c *Ctx, pkgs []string, allowParam []allowSite) {
 			c.R.Find(Finding{Rule: "vacuity", Func: k, Construct: "E6.R-param-slice allow-list", Pos: "-", Msg: "allow-listed store no longer exists: remove the entry"})
 		}
 	}
+}
+
+// library functions that rewrite the elements of their first argument in place
+var inPlaceMutators = map[string]bool{
+	"slices.Delete": true, "slices.DeleteFunc": true, "slices.Compact": true, "slices.CompactFunc": true, "slices.Reverse": true,
+	"slices.Sort": true, "slices.SortFunc": true, "slices.SortStableFunc": true, "slices.Insert": true, "slices.Replace": true,
+	"sort.Strings": true, "sort.Ints": true, "sort.Float64s": true, "sort.Slice": true, "sort.SliceStable": true, "sort.Sort": true, "sort.Stable": true,
 }
 
 func isPkgLevel(o types.Object) bool { return o.Pkg() != nil && o.Parent() == o.Pkg().Scope() }
